@@ -465,11 +465,54 @@ func runC09(w *World, r *Report) {
 	if ga := w.Fn(pkgRemedies, "getQuotaAllocationRatio"); ga == nil {
 		r.Undec("R7", "getQuotaAllocationRatio", token.NoPos, "function not found")
 	} else {
+		// a parameter stands for what every caller passes in its place
+		passedAs := func(v ssa.Value, suffix string) bool {
+			prm, isP := v.(*ssa.Parameter)
+			if !isP || prm.Parent() != ga {
+				return false
+			}
+			idx := -1
+			for i, q := range ga.Params {
+				if q == prm {
+					idx = i
+				}
+			}
+			sites := w.CallSites("remedies.getQuotaAllocationRatio")
+			for _, cs := range sites {
+				if a := cs.In.Common().Args; idx < 0 || idx >= len(a) || !strings.HasSuffix(Path(a[idx]), suffix) {
+					return false
+				}
+			}
+			return len(sites) > 0
+		}
+		// the request's header named by the group-by configuration
+		headerSide := func(v ssa.Value) bool {
+			if p := Path(v); strings.Contains(p, "Headers[") && strings.Contains(p, "GroupBy.HeaderName") {
+				return true
+			}
+			lk, isL := peel(v).(*ssa.Lookup)
+			if !isL || !passedAs(lk.X, ".Headers") {
+				return false
+			}
+			ip := Path(lk.Index)
+			if !strings.HasSuffix(ip, ".GroupBy.HeaderName") {
+				return false
+			}
+			if strings.Contains(ip, ".GroupQuotaAllocation.") {
+				return true
+			}
+			for _, q := range ga.Params {
+				if strings.HasPrefix(ip, "param:"+q.Name()+".") && passedAs(q, ".GroupQuotaAllocation") {
+					return true
+				}
+			}
+			return false
+		}
 		isEq := func(rels []Rel) bool {
 			for _, rel := range rels {
 				l, rr := Path(rel.L), Path(rel.R)
-				if rel.Op == "==" && (strings.Contains(l, "GroupHeaderValue") && strings.Contains(rr, "Headers[") && strings.Contains(rr, "GroupBy.HeaderName") ||
-					strings.Contains(rr, "GroupHeaderValue") && strings.Contains(l, "Headers[") && strings.Contains(l, "GroupBy.HeaderName")) {
+				if rel.Op == "==" && (strings.Contains(l, "GroupHeaderValue") && headerSide(rel.R) ||
+					strings.Contains(rr, "GroupHeaderValue") && headerSide(rel.L)) {
 					return true
 				}
 			}
